@@ -13,6 +13,15 @@ CHECKS = {
     "C01": dict(engine="dsched", technique="property-based testing: Hypothesis-generated reader/updater programs + schedules + TSO store delays on a controlled-concurrency engine; grace-period interval, value-litmus and use-after-reclaim oracles",
                 text="Generated-schedule exploration of the real synchronize_rcu()/read-side code of all four flavors (membarrier on/off) against interval, litmus and shadow-heap oracles; tens of thousands of distinct cases per run, shrunk replay on failure. Exploration is the right level: the property quantifies over interleavings and store-buffer delays, which the engine samples but cannot exhaust.",
                 ref="DESIGN.md §6 C01"),
+    "C02": dict(engine="dsched", technique="property-based testing: generated programs + schedules + injected futex faults (spurious return, EINTR, ENOSYS) on a controlled-concurrency engine; deadlock / no-progress / 10x-step-budget termination oracle",
+                text="Every generated finite scenario must run to completion under the engine's fair scheduler; a thread left blocked in FUTEX_WAIT/mutex with nothing runnable, or no memory write for 6000 steps, or a step-budget overrun that persists at 10x, is a violation. Liveness can only be sampled on finite programs, hence exploration.",
+                ref="DESIGN.md §6 C02"),
+    "C15": dict(engine="dsched", technique="property-based testing: generated register/unregister and thread-wave programs (bp registry capacity 2 via hook, mremap fault injection, signals during bp registration) with the C01/C02 oracles plus bp slot-stability and slot-reuse oracles",
+                text="Generated (un)registration and thread create/exit waves interleaved with both scan phases of synchronize_rcu(); grace-period, termination, slot-address-stability and slot-reuse oracles. Exploration over schedules.",
+                ref="DESIGN.md §6 C15"),
+    "C19": dict(engine="dsched", technique="property-based testing: real signals injected at generated scheduling points (incl. inside read_lock/read_unlock/synchronize_rcu and interrupted FUTEX_WAIT) of generated programs; read-side-state restoration oracle plus C01 oracles on handler sections",
+                text="Signals raised on the interrupted thread before any of its memory accesses, nested up to 3; the handler's lock/reads/unlock must restore nesting and (inside a section) the whole reader word, and handler and interrupted sections keep the grace-period guarantee. Exploration over interruption points and schedules.",
+                ref="DESIGN.md §6 C19"),
 }
 NOT_YET = "check not built yet in this session (planned: see DESIGN.md §6)"
 
